@@ -337,4 +337,3 @@ func checkC19Draw(c *Ctx, p *Prog) {
 		c.Check(ok && got == xtermBasic16[i], "C19-R5", fmt.Sprintf("palette[%d]", i), p.pos(obj.Pos()), fmt.Sprintf("got %#06x want %#06x", got, xtermBasic16[i]))
 	}
 }
-
